@@ -1106,6 +1106,14 @@ func (c ipamClient) AssignIP(ctx context.Context, args AssignIPArgs) error {
 		if err != nil {
 			if _, ok := err.(cerrors.ErrorResourceUpdateConflict); ok {
 				log.WithError(err).Debug("CAS error assigning IP - retry")
+				if args.HandleID != nil {
+					// The retry increments the handle again, so undo this attempt's increment.
+					cleanupCtx, cancel := contextForCleanup(ctx)
+					if err := c.decrementHandle(cleanupCtx, *args.HandleID, blockCIDR, 1, nil); err != nil {
+						log.WithError(err).Warn("Failed to decrement handle")
+					}
+					cancel()
+				}
 				continue
 			}
 
